@@ -158,7 +158,7 @@ func (m *Meta) AddUint64(key []byte, value uint64) error {
 
 func (m Meta) GetUint64(key []byte) (uint64, bool) {
 	value, ok := m.Get(key)
-	if !ok {
+	if !ok || len(value) != 8 {
 		return 0, false
 	}
 	return decodeUint64(value), true
